@@ -103,7 +103,12 @@ template<typename T> struct Sys {
             m = labels;
             if (n == 0) return new Array<T>(std::initializer_list<T>{});
             if (n == 1) return new Array<T>{T(labels[0])};
-            if (n == 2) return new Array<T>{T(labels[0]), T(labels[1])};
+            if (n == 2) {
+                // a NAMED initializer list feeds two arrays: building the first one must not change the list (its elements are const)
+                std::initializer_list<T> il = {T(labels[0]), T(labels[1])};
+                { Array<T> first(il); compare(first, m, "first array built from a named initializer list"); }
+                return new Array<T>(il);
+            }
             if (n == 3) return new Array<T>{T(labels[0]), T(labels[1]), T(labels[2])};
             return new Array<T>{T(labels[0]), T(labels[1]), T(labels[2]), T(labels[3])};
         case K_SIZE: m.assign(n, defval); return new Array<T>((size_t)n);
@@ -205,6 +210,11 @@ template<typename T> void bfs(int maxlen, std::set<std::string> &seen, Stats &st
                 st.transitions++; st.evals++; if (!base.empty() || !after.empty()) st.nontrivial++;
                 // the construction path stays part of the key for the first step only (afterwards only the reached state matters)
                 if (seen.insert(k).second) { st.states++; auto h2 = h; h2.push_back(o); frontier.push_back(std::move(h2)); if (st.states % 23 == 5) sample(hist_str(sys.cfg, h, &o) + "  => state " + k); }
+                else {
+                    // a transition into a known state: one more operation of every kind on THIS history (not merged)
+                    auto h2 = h; h2.push_back(o);
+                    for (auto &o2 : alpha) { if (!sys.pre(after, o2)) continue; mark(hist_str(sys.cfg, h2, &o2)); typename Sys<T>::M m3; sys.step(h2, &o2, m3); st.transitions++; st.evals++; }
+                }
             }
         }
     }
